@@ -14,17 +14,20 @@ def make_tagger(two_haps):
         hap_cycle = ["HAP1", "HAP2"]
         painted_seen = 0
         used_names = set()
+        contaminants = rng.random() < 0.3
         for gi, grp in enumerate(groups):
             painted = grp[0]["painted"]
             sc_tags = []
+            hap = hap_cycle[painted_seen % 2] if two_haps and painted else None
             if painted and rng.random() < 0.25:
-                cands = [t for t in ["X", "W1", "B2", "Z", "Y", "B1"] if t not in used_names]
+                # a chromosome name is used once per haplotype (X in HAP1 and X in HAP2 is the normal case)
+                cands = [t for t in ["X", "W1", "B2", "Z", "Y", "B1"] if (t, hap) not in used_names]
                 if cands:
                     t = rng.choice(cands)
-                    used_names.add(t)
+                    used_names.add((t, hap))
                     sc_tags.append(t)
             if two_haps and painted:
-                sc_tags.append(hap_cycle[painted_seen % 2])
+                sc_tags.append(hap)
                 painted_seen += 1
             whole = rng.random() < 0.6
             carrier = 0
@@ -39,6 +42,8 @@ def make_tagger(two_haps):
                     # the first piece of a painted scaffold stays the chromosome itself: a chromosome made
                     # of unlocs only is not a consistent tagging
                     tags.append("Haplotig")
+                elif contaminants and j > 0 and x > 0.85:
+                    tags.append("Contaminant")
                 pc["tags"] = tags
             rows = ptx["scaffolds"][gi]["rows"]
             k = 0
@@ -52,7 +57,7 @@ def make_tagger(two_haps):
 class C10(PipelineProp):
     pid = "C10"
     design_ref = "6/C10"
-    required_theorems = ['C10_rename_by_size_spec', 'C10_haplotig_names_sequential', 'C10_unloc_names_sequential', 'C10_other_labels_keep_counters', 'C10_groups_sorted_desc', 'C10_numbering', 'C10_single_hap_groups', 'C10_name_chromosomes_single_total', 'C10_name_group_effect', 'C10_multi_chr_list', 'C10_output_order_total', 'C10_unloc_between', 'C10_example', 'C10_csv_line_count', 'C10_csv_none_iff', 'C10_csv_lines_shape', 'C10_csv_groups', 'C10_chr_of_prefixed', 'C10_csv_orphan_unloc_refuted']
+    required_theorems = ['C10_rename_by_size_spec', 'C10_haplotig_names_sequential', 'C10_unloc_names_sequential', 'C10_other_labels_keep_counters', 'C10_groups_sorted_desc', 'C10_numbering', 'C10_single_hap_groups', 'C10_name_chromosomes_single_total', 'C10_name_group_effect', 'C10_multi_chr_list', 'C10_output_order_total', 'C10_unloc_between', 'C10_example', 'C10_csv_line_count', 'C10_csv_none_iff', 'C10_csv_lines_shape', 'C10_csv_groups', 'C10_chr_of_prefixed', 'C10_csv_orphan_unloc_refuted', 'C10_names_unique_single_haplotype', 'C10_names_unique', 'C10_fuse_keys_nodup', 'C10_duplicate_is_collision', 'C10_duplicate_names_refuted', 'C10_names_unique_instance']
     n_quick = 400
 
     def rule(self):
@@ -163,8 +168,27 @@ class C10(PipelineProp):
     def known_signature(self, case, obs, why):
         """an unloc whose chromosome has no main scaffold left (its main pieces were emptied by the
         overhang resolution) is listed as localised"""
+        if "err" in obs:
+            return None
+        md = re.match(r"assembly '(\w+)' has duplicate scaffold names (\[.*\])$", why or "")
+        if md:
+            # same name, same tag, different haplotypes, filed under the tag (known finding); any other
+            # duplicate is a new violation
+            import ast
+
+            key, dups = md.group(1), ast.literal_eval(md.group(2))
+            for a in obs["asms"]:
+                if a["key"] != key:
+                    continue
+                for n in dups:
+                    same = [s_ for s_ in a["scaffolds"] if s_["name"] == n]
+                    haps = [s_["hap"] for s_ in same]
+                    if any(s_["tag"] != key for s_ in same) or len(set(haps)) != len(haps):
+                        return None
+                return "tagged-duplicates-across-haplotypes"
+            return None
         m = re.match(r"chromosome list: (\S+)_unloc_\d+ localised=yes", why or "")
-        if not m or "err" in obs:
+        if not m:
             return None
         chrom = m.group(1)
         for a in obs["asms"]:
